@@ -33,20 +33,24 @@ RULE = ("Hypothesis cases {program, order, labels, compact, outer, unroll, obser
         "circuit, nesting <= 2, 4 qubits, <= 40 unrolled operations, explicit relations of all three types on ~35 % of the "
         "items, repetition counts 1..3, fixed/registry durations from {0,.25,.5,1,1.5,2,3,7}) over the 23 drawable kinds "
         "(part drawable) or all 26 kinds (part any_kind); channel order = none | a permutation | a proper prefix of a "
-        "permutation of the occupied channel ids (constructed from the program), in part unknown_channel with one "
+        "permutation | [] of the occupied channel ids (constructed from the program), in part unknown_channel with one "
         "unoccupied id inserted; label map = none | labels for a drawn subset of the occupied ids, sometimes plus an "
         "unoccupied key; compact on/off; outer global durations = none | four positive dyadic values (so != the drawing's "
         "2/1/1/2 in compact mode); the circuit as built or after apply_modifiers(); fingerprint taken before plotting or "
-        "only on a never-plotted twin. Oracle: plot_circuit (Agg) must not raise; the description it actually hands to "
-        "plot_circuit_description is captured and must show rows = requested order + each remaining occupied id once, "
-        "labels of mapped channels = the mapped string, width = max(1, latest end) + 1 and figure size to match, and the "
-        "multiset of (left edge x, rows) of its draw components = multiset of (start, rows of the qubits) over the drawable "
-        "operations, times from the reference model (relations as built, durations = the drawing's) - two-qubit gates "
-        "sharing a start time may be off by <= duration/4; fingerprint (listing signatures, times, duration, acquisition "
-        "indices) under the outer durations identical before/after and identical to the twin's; global duration lookup "
-        "is the same function object after the call; no figure stays open beyond the returned one; an unknown id in the "
-        "order raises and leaves no figure. Non-trivial = >= 2 occupied channels and a requested order that differs from "
-        "the program's first-occurrence order and outer durations set and != 2/1/1/2; distinct = canonical JSON of the case.")
+        "only on a never-plotted twin. Part library enumerates repetition-code / simplified / multi-round / calibration "
+        "circuits x reversed, rotated, two-id-prefix, no and unknown-id order x label maps x outer durations x unrolled. "
+        "Oracle: plot_circuit (Agg) must not raise; the description it actually hands to plot_circuit_description is "
+        "captured and must show rows = requested order + each remaining occupied id once, labels of mapped channels = the "
+        "mapped string, width = max(1, latest end) + 1 and figure size to match, and the multiset of (left edge x, rows) "
+        "of its draw components = multiset of (start, rows of the qubits) over the drawable operations, times from the "
+        "reference model (relations as built, durations = the drawing's; library part: times a never-plotted twin reports "
+        "under the drawing's durations) - two-qubit gates sharing a start time may be off by <= duration/4; fingerprint "
+        "(listing signatures, times, duration, acquisition indices) under the outer durations identical before/after and "
+        "identical to the twin's; the global duration lookup is the same function object after the call and reports the "
+        "outer durations; no figure stays open beyond the returned one; an unknown id in the order raises, leaves no "
+        "figure and changes nothing. Non-trivial = >= 2 occupied channels and a requested order that differs from the "
+        "program's first-occurrence order (or holds an unknown id) and outer durations set and != 2/1/1/2; distinct = "
+        "canonical JSON of the case.")
 ASSUMPTIONS = [
     "drawable kinds = the 20 kinds in the factory lookup plus single-qubit kinds drawn by the default factory (SingleQubitOperation, DetectorOperation, LogicalObservableOperation); generic TwoQubitOperation and TwoQubitVirtualPhase have no drawing (silently skipped) and CoordinateShiftOperation gets a single default block: programs containing them (part any_kind) must draw without error and stay unchanged, their own placement is not asserted",
     "the order of rows NOT named in the requested order is not fixed by the property: only 'each remaining occupied channel exactly once' is demanded (agreement with first-occurrence order is reported as a class label)",
@@ -95,10 +99,12 @@ def case_strategy(kinds, unknown: bool):
             order.insert(draw(st.integers(0, len(order))), draw(st.sampled_from(free)))
         elif mode == 9 or not occ:
             order = "none"
-        elif mode <= 4:
+        elif mode <= 3 or len(perm) < 2:
             order = perm
+        elif mode <= 7:
+            order = perm[: draw(st.integers(1, len(perm) - 1))]
         else:
-            order = perm[: draw(st.integers(0, len(perm) - 1))]
+            order = []
         labels = None
         if draw(st.integers(0, 9)) < 7:
             full = draw(st.integers(0, 2)) == 2
@@ -110,7 +116,7 @@ def case_strategy(kinds, unknown: bool):
         outer = None
         if draw(st.integers(0, 9)) < 7:
             outer = [draw(st.sampled_from(pos)) for _ in range(4)]
-        return {"program": program, "order": order, "labels": labels, "compact": draw(st.integers(0, 3)) < 3,
+        return {"program": program, "order": order, "labels": labels, "compact": draw(st.integers(0, 2)) < 2,
                 "outer": outer, "unroll": draw(st.integers(0, 1)) == 0, "observe_first": draw(st.integers(0, 1)) == 0}
     return case()
 
@@ -227,6 +233,8 @@ def bipartite(left: List[Any], right: List[Any], ok) -> List[Optional[int]]:
 def expected_schedule(ctx, program, twin, unroll: bool, g_outer, g_draw, draw_ctx):
     """[(item, start, end)] for every listed operation under the drawing's durations, and which oracle produced it.
     `twin` holds never-plotted circuits built (and unrolled) exactly like the plotted one, plus a never-unrolled one."""
+    if program is None:
+        return _library_times(ctx, twin, unroll, draw_ctx), "library"
     dreg = program.get("dreg", {})
     root = M.build(program)
     try:
@@ -241,13 +249,17 @@ def expected_schedule(ctx, program, twin, unroll: bool, g_outer, g_draw, draw_ct
         return [(n.item, float(n.start), float(n.end)) for n in tree.leaves()], "model"
     except (O.Mismatch, O.BudgetExhausted) as e:
         ctx.note(f"oracle-fallback:{type(e).__name__}")
-    # fall back: what the twin itself reports under the drawing's durations (relations are a C01 matter)
+    return _library_times(ctx, twin, unroll, draw_ctx), "library"
+
+
+def _library_times(ctx, twin, unroll, draw_ctx):
+    """What a never-plotted twin itself reports under the drawing's durations (relations are a C01 matter)."""
     out = None
     circ = twin["unrolled"] if unroll else twin["built"]
     with ctx.lib("twin times under the drawing's durations"):
         with draw_ctx():
             out = [(lib_item(o), float(o.start_time), float(o.end_time)) for o in circ.operations]
-    return out, "library"
+    return out
 
 
 def lib_item(op) -> Dict[str, Any]:
@@ -303,23 +315,23 @@ def classify(case, program, occ, unknown: bool):
     return nontrivial, classes, st
 
 
-def build_pair(ctx, program, unroll: bool):
+def build_pair(ctx, make, unroll: bool):
     """The circuit to plot and a twin, both built (and unrolled) the same way, inside the outer override. The twin also
     carries a never-unrolled 'probe' build (apply_modifiers works in place) used to read off implicit tie choices."""
     out = []
     for _ in range(2):
         d = None
         with ctx.lib("build" + (" + apply_modifiers" if unroll else "")):
-            b = P.build(program)
-            d = {"built": b.circuit}
+            c = make()
+            d = {"built": c}
             if unroll:
-                d["unrolled"] = b.circuit.apply_modifiers()
+                d["unrolled"] = c.apply_modifiers()
         if d is None or (unroll and "unrolled" not in d):
             return None, None
         out.append(d)
     probe = None
     with ctx.lib("build"):
-        probe = P.build(program).circuit if unroll else out[1]["built"]
+        probe = make() if unroll else out[1]["built"]
     if probe is None:
         return None, None
     out[1]["probe"] = probe
@@ -358,22 +370,27 @@ def check_unchanged(ctx, what, circ, fp_ref, fp_before, lookup_before, g_outer, 
 
 
 def body(case, ctx, unknown: bool = False):
-    import matplotlib.pyplot as plt
-    from qce_circuit.structure.registry_duration import temporary_override_get_registry_at, GlobalRegistryKey as K
-    dc = _dc()
-    program, unroll, compact = case["program"], case["unroll"], case["compact"]
-    g_outer = case["outer"]
+    program = case["program"]
     occ = occupied(program)
     nontrivial, classes, st = classify(case, program, occ, unknown)
     ctx.case(case, nontrivial=nontrivial, classes=classes)
+    run(case, ctx, make=lambda: P.build(program).circuit, program=program, occ=occ, kinds=st["kinds"], unknown=unknown)
+
+
+def run(case, ctx, make, program, occ, kinds, unknown: bool):
+    """Shared core. `make()` builds a fresh circuit; `program` (or None) feeds the reference model; `occ` = occupied
+    channel ids if known from the case, else None (then read off a never-plotted twin, and `order`/`labels` are specs)."""
+    import matplotlib.pyplot as plt
+    from qce_circuit.structure.registry_duration import temporary_override_get_registry_at, GlobalRegistryKey as K
+    dc = _dc()
+    unroll, compact = case["unroll"], case["compact"]
+    g_outer = case["outer"]
     env.original_global_lookup()
     if vis_registry_values() != VIS_G:
         ctx.note("drawing-durations-differ-from-2-1-1-2")
     vis = vis_registry_values()
     g_draw = vis if compact else (g_outer or list(P.DEFAULT_G))
-    order = None if case["order"] == "none" else list(case["order"])
-    labels = label_map(case["labels"])
-    facts: Dict[str, Any] = {"compact": compact, "unroll": unroll, "kinds": st["kinds"]}
+    facts: Dict[str, Any] = {"compact": compact, "unroll": unroll, "kinds": kinds}
 
     def draw_ctx():
         import contextlib
@@ -382,8 +399,8 @@ def body(case, ctx, unknown: bool = False):
         return temporary_override_get_registry_at({K.READOUT: vis[0], K.MICROWAVE: vis[1], K.FLUX: vis[2], K.RESET: vis[3]})
 
     try:
-        with P.global_override(dict_or_none(g_outer)):
-            main, twin = build_pair(ctx, program, unroll)
+        with P.global_override(None if g_outer is None else [float(x) for x in g_outer]):
+            main, twin = build_pair(ctx, make, unroll)
             if main is None:
                 return
             circ = main["unrolled"] if unroll else main["built"]
@@ -393,6 +410,16 @@ def body(case, ctx, unknown: bool = False):
                 fp_ref = fingerprint(tcirc)
             if fp_ref is None:
                 return
+            if occ is None:
+                occ = []
+                for sig in fp_ref["sigs"]:
+                    for q, _ in sig[1]:
+                        if q not in occ:
+                            occ.append(q)
+                order, labels = resolve_specs(case["order"], case["labels"], occ)
+            else:
+                order = None if case["order"] == "none" else list(case["order"])
+                labels = label_map(case["labels"])
             fp_before = None
             if case["observe_first"]:
                 with ctx.lib("observe before plotting"):
@@ -425,19 +452,20 @@ def body(case, ctx, unknown: bool = False):
 
             # ---- the drawing itself
             fig = None
-            cap = Capture()
-            with ctx.lib("plot_circuit"):
-                with cap:
-                    fig, _ax = dc.plot_circuit(circ, channel_order=order, channel_map=labels, compact_visualization=compact)
-            new_figs = [n for n in plt.get_fignums() if n not in figs_before]
             fig_size = None
-            if fig is not None:
-                fig_size = [float(x) for x in fig.get_size_inches()]
-                extra = [n for n in new_figs if n != fig.number]
-            else:
-                extra = new_figs
-            for n in new_figs:
-                plt.close(n)
+            extra: List[int] = []
+            cap = Capture()
+            try:
+                with ctx.lib("plot_circuit"):
+                    with cap:
+                        fig, _ax = dc.plot_circuit(circ, channel_order=order, channel_map=labels, compact_visualization=compact)
+            finally:          # never leave a figure behind, whatever happened
+                new_figs = [n for n in plt.get_fignums() if n not in figs_before]
+                if fig is not None:
+                    fig_size = [float(x) for x in fig.get_size_inches()]
+                extra = [n for n in new_figs if fig is None or n != fig.number]
+                for n in new_figs:
+                    plt.close(n)
             if fig is None:
                 check_unchanged(ctx, "the failed plot_circuit call", circ, fp_ref, fp_before, lookup_before, g_outer, facts)
                 return
@@ -467,10 +495,6 @@ def body(case, ctx, unknown: bool = False):
             env.force_restore_global_lookup()
             ctx.fail("lookup-not-restored", "after the case the global duration lookup is not the library's original "
                      "function (forced back by the harness)", facts)
-
-
-def dict_or_none(g):
-    return None if g is None else [float(x) for x in g]
 
 
 def check_rows_and_labels(ctx, description, order, labels, occ, facts):
@@ -540,6 +564,11 @@ def check_placement(ctx, description, components, expected, facts):
             loose.append(entry)
         else:
             exp.append(entry)
+    ctx.note(f"oracle={facts.get('oracle')}")
+    if any(e["tol"] > 0 for e in exp):
+        ctx.note("two-qubit-gates-sharing-a-start")
+    if any(e["x"] < 0 for e in exp):
+        ctx.note("operation-starting-before-0")
 
     def residual(widen: bool):
         def fits(e, a):
@@ -581,9 +610,56 @@ def body_unknown(case, ctx):
     body(case, ctx, unknown=True)
 
 
+# ------------------------------------------------------------------------------------------------------------------
+# library circuits
+# ------------------------------------------------------------------------------------------------------------------
+def resolve_specs(order_spec, label_spec, occ):
+    """Channel order / label map of a library case, derived from the occupied ids (sorted = natural order)."""
+    ids = sorted(occ)
+    order = {"none": None, "reverse": ids[::-1], "rotate": ids[1:] + ids[:1], "last_two": ids[-2:][::-1],
+             "unknown": ids[:1] + [max(ids + [0]) + 3]}[order_spec]
+    labels = {"none": None, "all": {c: f"Q{c}" for c in ids}, "odd": {c: f"Q{c}" for c in ids if c % 2}}[label_spec]
+    return order, labels
+
+
+def items_library(tier):
+    specs = [{"ctor": "repcode", "d": 2, "cycles": 0}, {"ctor": "repcode", "d": 2, "cycles": 2},
+             {"ctor": "repcode", "d": 3, "cycles": 1}, {"ctor": "simplified", "d": 3, "cycles": 2},
+             {"ctor": "multi", "d": 2, "rounds": [0, 2, 1]}, {"ctor": "calibration", "d": 3, "type": "QUTRIT"}]
+    if tier != "quick":
+        specs += [{"ctor": "repcode", "d": 3, "cycles": 4}, {"ctor": "repcode", "d": 4, "cycles": 2},
+                  {"ctor": "simplified", "d": 2, "cycles": 6}, {"ctor": "multi", "d": 3, "rounds": [3, 0]},
+                  {"ctor": "calibration", "d": 2, "type": "QUBIT"}]
+    outers = [None, [0.5, 0.25, 1.5, 1.0], [3.0, 0.5, 0.25, 1.5]]
+    orders = ["reverse", "rotate", "last_two", "none"]
+    i = 0
+    for spec in specs:
+        for unroll in (False, True):
+            for compact in ((True, False) if tier != "quick" else (True,)):
+                for outer in (outers if tier != "quick" else outers[1:2]):
+                    i += 1
+                    yield {"lib": spec, "order": orders[i % 4], "labels": ["all", "odd", "none"][i % 3],
+                           "compact": compact if tier != "quick" else (i % 3 != 0), "outer": outer, "unroll": unroll,
+                           "observe_first": i % 2 == 0}
+        yield {"lib": spec, "order": "unknown", "labels": "none", "compact": True, "outer": outers[1], "unroll": False,
+               "observe_first": True}
+
+
+def body_library(case, ctx):
+    from .c07 import build_library
+    spec = case["lib"]
+    unknown = case["order"] == "unknown"
+    differs = case["outer"] is not None
+    ctx.case(case, nontrivial=differs and case["order"] != "none", classes=[
+        f"library={spec['ctor']}", f"order={case['order']}", f"labels={case['labels']}", f"compact={case['compact']}",
+        f"outer_differs={differs}", f"unroll={case['unroll']}", f"observe_first={case['observe_first']}"])
+    run(case, ctx, make=lambda: build_library(spec), program=None, occ=None, kinds=[spec["ctor"]], unknown=unknown)
+
+
 def parts():
     return [
         Part("drawable", body, strategy=strat_drawable, quick=600, thorough=1500),
         Part("any_kind", body, strategy=strat_any_kind, quick=150, thorough=400),
         Part("unknown_channel", body_unknown, strategy=strat_unknown, quick=150, thorough=300),
+        Part("library", body_library, items=items_library),
     ]
